@@ -24,8 +24,10 @@ REPO = os.environ.get("VERIF_REPO", "/repo")
 BUILD = os.path.join(ROOT, "_build")
 COQDIR = os.path.join(ROOT, "coq")
 HARNESS = os.path.join(ROOT, "harness")
-EVIDENCE = os.path.join(ROOT, "evidence")
-REPLAY = os.path.join(ROOT, "replay")
+# a run against a scratch copy (VERIF_REPO=<worktree>, used to try seeded changes) must not overwrite the evidence and replays of /repo
+_SCRATCH = os.path.realpath(REPO) != os.path.realpath("/repo")
+EVIDENCE = os.path.join(BUILD, "scratch-evidence") if _SCRATCH else os.path.join(ROOT, "evidence")
+REPLAY = os.path.join(BUILD, "scratch-replay") if _SCRATCH else os.path.join(ROOT, "replay")
 GUARD = "TASMANIAN_VERIF_HOOKS"
 NCPU = os.cpu_count() or 4
 
